@@ -37,7 +37,7 @@ Section Generic.
       no negative index, never out of fuel; the only possible error is the cost assertion *)
   Theorem C20_insert_index_safe : forall h e,
     orders_ok empty h -> run empty h = Err e -> e = EAssert.
-  Proof. exact (C05_index_safe C cmin cmax czero go_left cost_ok D). Qed.
+  Proof. exact (C05_index_safe C le cmin cmax czero go_left cost_ok D). Qed.
 
   (** box query (query_overlap through overlaps_aabb): always returns, never [Err EIndex] *)
   Theorem C20_query_index_safe : forall h t q,
@@ -68,7 +68,7 @@ Section Generic.
   (** ... whereas the compiled KERNEL on the root of an empty tree indexes outside its
       (zero-length) arrays: the behaviour of the code before fix 177ace2 (finding F5) *)
   Theorem C20_empty_query_kernel_index_unsafe : forall q brk,
-    query_overlap C le D q None [] [] brk = Err EIndex.
+    query_overlap C le q None [] [] brk = Err EIndex.
   Proof. intros q brk. reflexivity. Qed.
 End Generic.
 
